@@ -59,3 +59,31 @@ func init() {
 func init() {
 	register(&Property{ID: "XUC", Run: func(c *Ctx) { ruleUNIONCLONE(c) }})
 }
+
+func init() {
+	register(&Property{
+		ID: "C05",
+		Explanation: "Decides structural necessary conditions of 'compressed tables decode to the same actions': GUARD(usedBase): every freshly chosen displacement base in allocator.place reaches a return only through the not-used outcome of usedBase.Get(delta+base), and the base is recorded (two rows with one base decode each other's cells). " +
+			"GUARD(dedupe): a cached base is reused only when the bounds check held and value+check column were compared. CODEC(optimize): every value stored into a row is error(-1), shift(-2-state), a rule index or the unfilled sentinel; under defaultReduce the sentinel is -K-len(Action), K>=2 (distinct from every shift code, the nonassoc error and rule indices), and only cells equal to the sentinel receive the default reduction. " +
+			"MUSTPASS(compile-order): populateTables < resolveWithLookahead < reportConflicts < minimize < Optimize. GUARD(optimize-la): Optimize is not run on tables holding deep-lookahead pointers. CODEC(gen): generated displacement parsers decode with the same constants. " +
+			"Not decided: full functional equality of the two encodings, pickDefault's choice.",
+		Rules: []string{"GUARD(usedBase)", "GUARD(dedupe)", "CODEC(optimize)", "MUSTPASS(compile-order)", "GUARD(optimize-la)"},
+		Run: func(c *Ctx) {
+			ruleUSEDBASE(c)
+			ruleDEDUPE(c)
+			ruleOPTCODEC(c)
+			ruleCOMPILEORDER(c)
+		},
+	})
+	register(&Property{
+		ID: "C06",
+		Explanation: "Decides structural necessary conditions of behaviour-preserving minimization: GUARD(entry): minimize consults Grammar.Inputs so that entry states (referenced by index from generated Parse*/lookahead functions) stay apart. FIELDCOV(minimize): the rule-class key is built from LHS, RuleLen (as popped by the parser), action, node type and flags; every Tables field that holds or is indexed by state numbers is rewritten on the merge path; new Tables fields must be classified; the refinement signature contains own partition, edge symbol and target partition. " +
+			"MUSTPASS(compile-order): minimize runs after conflict resolution and before Optimize. Not decided: that Moore refinement yields a behaviourally equivalent automaton on all inputs.",
+		Rules: []string{"GUARD(entry)", "FIELDCOV(minimize)", "MUSTPASS(compile-order)"},
+		Run: func(c *Ctx) {
+			ruleENTRYGUARD(c)
+			ruleMINIMIZE(c)
+			ruleCOMPILEORDER(c)
+		},
+	})
+}
